@@ -276,7 +276,14 @@ Definition verdicts_c01 (cs : list ncase) : list N := map verdict_c01 cs.
     implementation: real registry + real combinator) *)
 Record jcase := mkJCase { j_src : N; j_dst : N; j_cores : list N; j_segs : list (list N); j_offered : N }.
 Definition jverdict (c : jcase) : N :=
-  let j := joinable (j_src c) (j_dst c) (j_cores c) (j_segs c) in
+  (* [j_segs]: ALL segments of the topology (independent beaconing by the harness); a
+     destination with AS number 0 is the wildcard "any core of the ISD" (then [j_offered]
+     counts the segments the lookup lists) *)
+  let wildcard := N.land (j_dst c) 281474976710655 =? 0 in
+  let j := if wildcard
+           then joinable_any (j_src c) (N.shiftr (j_dst c) 48) (j_cores c) (j_segs c)
+                && negb (existsb (N.eqb (j_src c)) (j_cores c) && (N.shiftr (j_src c) 48 =? N.shiftr (j_dst c) 48))
+           else joinable (j_src c) (j_dst c) (j_cores c) (j_segs c) in
   (if j && (j_offered c =? 0) then 2 else 0)
   (* diagnostics (ignored by the driver): 256 = not joinable by the specification's rules
      (then nothing is demanded), 512 = ... although paths are offered (peering-only routes) *)
